@@ -269,7 +269,16 @@ def c15_reap(ctx):
     if not joins or not fin:
         out.append(bad('ORD-C15-reap', key, 'remove_finished_threads no longer tests is_finished / joins (found %d/%d)' % (len(fin), len(joins)), fn=rf.name))
     elif not removes:
-        out.append(undecided('ORD-C15-reap', key, 'finished threads are tested and joined, but how they leave the thread table is not a recognised Vec operation'))
+        # the dead thread's handle is swapped out of its slot while the slot itself - and its busy flag - stays in the table
+        swaps = [(f, bb, clean_ty(t['args'][0]['pl']['ty'])) for f in body for bb, t in f.calls()
+                 if (t['func'].get('fn') or '') in ('core::mem::replace', 'core::mem::swap', 'core::mem::take') and t['args'] and t['args'][0]['k'] != 'const']
+        slot_only = [x for x in swaps if x[2].replace('&mut ', '') == 'desync::SchedulerThread']
+        if slot_only:
+            out.append(bad('ORD-C15-reap', key + '|slot-leaves-with-its-flag', 'a finished thread is swapped out of its slot but the slot keeps its busy flag: a thread killed by a panicking job dies with the flag '
+                           'set (only its own work loop clears it), so the replacement sitting behind that flag is never chosen by schedule_dormant and still counts towards the maximum - every panic costs the pool a thread for good',
+                           loc=slot_only[0][0].loc(slot_only[0][1]), fn=rf.name))
+        else:
+            out.append(undecided('ORD-C15-reap', key, 'finished threads are tested and joined, but how they leave the thread table is not a recognised Vec operation'))
     elif any(f is not rf for f, bb in removes + joins):
         out.append(undecided('ORD-C15-reap', key, 'removal or join happens inside a closure: lock context not decided'))
     else:
